@@ -1,6 +1,7 @@
 import GoLevel.Driver.Key
 import GoLevel.Model.LSM
 import GoLevel.Proofs.LSMCompactView
+import GoLevel.Proofs.LSMSourcesB
 /-!
 Trace validation for the LSM layer (`lsm …` lines, DESIGN.md §2.2 shape 3).
 
@@ -105,6 +106,20 @@ def moveVerdict (c : UCmp) (v : Version) (src : Nat) (t : Table) : String :=
     "illegal overlaps-level0"
   else "ok"
 
+/-- the hypotheses of `C01.dbGet_spec` on a dumped state (`C01.sourcesOKB_sound`).  A frozen buffer whose flush
+is committed but which is not dropped yet duplicates its own level-0 table: then the state without it is
+checked (readers find those entries in the buffer first, with the same answer). -/
+def sourcesVerdict (st : LsmState) (vid : Nat) (mem : List Entry) (frozen : Option (List Entry)) : String :=
+  match lookupVersion st vid with
+  | none => "illegal unknown-version"
+  | some v =>
+    if sourcesOKB st.cmp mem frozen v then "ok"
+    else match frozen with
+      | some fr =>
+        if (v.levels.headD []).any (fun t => t.entries = fr) && sourcesOKB st.cmp mem none v then "ok"
+        else "bad sources-not-ordered"
+      | none => "bad sources-not-ordered"
+
 def handleLsm (st : LsmState) : List String → Option (LsmState × String)
   | ["reset", c] => do
       let c ← cmpById c
@@ -168,11 +183,11 @@ def handleLsm (st : LsmState) : List String → Option (LsmState × String)
       let vid ← vid.toNat?; let nm ← nm.toNat?
       let (mem, rest1) ← parseEntries nm rest
       match rest1 with
-      | "none" :: _ => pure ({ st with mem := mem, frozen := none, cur := vid }, "ok")
+      | "none" :: _ => pure ({ st with mem := mem, frozen := none, cur := vid }, sourcesVerdict st vid mem none)
       | nf :: rest2 => do
         let nf ← nf.toNat?
         let (fr, _) ← parseEntries nf rest2
-        pure ({ st with mem := mem, frozen := some fr, cur := vid }, "ok")
+        pure ({ st with mem := mem, frozen := some fr, cur := vid }, sourcesVerdict st vid mem (some fr))
       | [] => none
   | ["get", k, s] => do
       let k ← fromHex k; let s ← s.toNat?
